@@ -740,6 +740,9 @@ def history_features(case, obs=None, upto=None):
                 feats.add("RenameOntoRemovedDir")
         if name in ("rmdir", "rmdir_all") and fs.kind(st[2]) == "dir":
             feats.add("RemoveDir")
+        if name == "sync_dir" and fs.kind(st[2]) == "dir" and any(
+                (parent(f) == st[2]) != (parent(t) == st[2]) for _, f, t in gh.pren):
+            feats.add("OneSidedFlush")
         if name in ("mkdir", "mkdir_all") and fs.kind(st[2]) is None:
             feats.add("Mkdir")
         gh.update(st, dur)
@@ -1428,18 +1431,17 @@ KNOWN_CLASSES = ["RootOp", "RenameSelf", "StaleHandle", "RenameDir", "RenameFile
 THEOREM_EXCLUDED = ["RootOp", "RenameSelf", "StaleHandle", "RenameDir", "RenameFileAny", "RecreateAny", "KindSwap"]
 # what the rename-inclusive theorems (Known.v: c07_crash_image_renames_partial, c10_refines_renames_partial)
 # exclude beyond the known classes
-RENAME_THEOREM_EXTRA = ["RecreateAny", "RenameOntoRemovedDir"]
+RENAME_THEOREM_EXTRA = ["RecreateAny", "RenameOntoRemovedDir", "OneSidedFlush"]
 
 
 def rename_theorem_side_condition(case, feats, unspecified=False):
     """python rendering of FsKnown.ksafe_enc for a one-host script: alphabet (no create_dir_all /
-    remove_dir_all, renames within one directory), no known class, none of the extra exclusions,
-    no crash on a dangling durable subtree"""
+    remove_dir_all), no known class, none of the extra exclusions (any re-creation of a file name, a
+    rename onto a removed directory's name, a sync_dir of exactly one of the two directories of an
+    unflushed rename), no crash on a dangling durable subtree"""
     for st in case["steps"]:
         nm = st[0].split("@")[0]
         if nm in ("mkdir_all", "rmdir_all"):
-            return False
-        if nm == "rename" and (st[2] == "/" or st[3] == "/" or parent(st[2]) != parent(st[3])):
             return False
     return not (set(feats) & set(KNOWN_CLASSES)) and not (set(feats) & set(RENAME_THEOREM_EXTRA)) and not unspecified
 
